@@ -32,6 +32,29 @@ def run(rep: Report, tier: str) -> None:
 	rule_plumbing(rep, idx)
 	rule_quotation(rep, idx)
 	rule_engine_quotation(rep, idx)
+	rule_restored(rep)
+
+
+# ---- (0) spans of a restored tree ----------------------------------------------------------------------------------------------------
+
+def rule_restored(rep: Report) -> None:
+	"""`This holds equally after the tree was restored from the cache`: the span getter of the view may consult (as value or as guard) only attributes
+	of the wrapped lark object which the cache reader restores, and the restored position fields come from the stored span. Both inventories are C15's
+	(view-coverage, position-provenance); their obligations are obligations here as well."""
+	from checks import c15
+	r = rep.rule('C16/restored-spans', 'every attribute the EntryOfLark view consults is restored by Serialization.__loads, and each restored position field is taken from the stored source_map (obligations shared with C15/view-coverage and C15/position-provenance)', floor=12)
+	scratch = Report('C15', rep.tier)
+	c15.run(scratch, rep.tier)
+	for rule in scratch.rules:
+		if rule.id not in ('C15/view-coverage', 'C15/position-provenance'):
+			continue
+		for o in rule.obligations:
+			if o.status == 'violated':
+				r.violate(o.key, (o.file, o.line), o.message, o.fragment)
+			elif o.status == 'discharged':
+				r.ok(o.key, (o.file, o.line))
+			else:
+				r.skip(o.key, (o.file, o.line), o.message)
 
 
 # ---- (1) span fields ------------------------------------------------------------------------------------------------------------
